@@ -95,6 +95,7 @@ func genDispatch(c *ctx) string {
 		}
 	}
 	b.WriteString("def nullVarUsesDefault : Bool := " + nv + "\n")
+	b.WriteString("def argCountCheckOnly : Bool := " + sortArgsForm(c) + "\n")
 	lnc, su := replaceArgVarsForms(c)
 	b.WriteString("def listNotCoerced : Bool := " + lnc + "\n")
 	b.WriteString("def symbolUnchecked : Bool := " + su + "\n")
@@ -153,4 +154,24 @@ func replaceArgVarsForms(c *ctx) (listNotCoerced, symbolUnchecked string) {
 		return false
 	})
 	return
+}
+
+// sortArgsForm reads (*Field).sortArgs: are undeclared arguments looked for only when the number of arguments
+// differs from the number declared, and only under object containers (D23)?  Whole-body match of the two forms.
+func sortArgsForm(c *ctx) string {
+	fd := c.funcs["Field.sortArgs"]
+	if fd == nil {
+		return unknown("sortArgs", "field.go")
+	}
+	src := regexp.MustCompile(`(?m)//.*$`).ReplaceAllString(c.src(fd.Body), "")
+	src = regexp.MustCompile(`\s+`).ReplaceAllString(src, " ")
+	const sortLoop = `args := make([]*ArgValue, 0, len(f.Args)) for _, a := range fd.args.list { args = append(args, f.getArg(a.N)) }`
+	const unknownLoop = `for _, av := range f.Args { if fd.getArg(av.Arg) == nil { errors = append(errors, valError(av.line, av.col, "%s is not an argument to %s", av.Arg, f.Name)) } }`
+	switch src {
+	case `{ if 0 < len(f.Args) { if ot, _ := f.ConType.(*Object); ot != nil { if fd := ot.fields.get(f.Name); fd != nil { ` + sortLoop + ` if len(args) != len(f.Args) { ` + unknownLoop + ` } f.Args = args } } } return }`:
+		return "true"
+	case `{ if 0 < len(f.Args) { var fd *FieldDef switch ct := f.ConType.(type) { case *Object: fd = ct.fields.get(f.Name) case *Interface: fd = ct.fields.get(f.Name) } if fd != nil { ` + sortLoop + ` ` + unknownLoop + ` f.Args = args } } return }`:
+		return "false"
+	}
+	return unknown("sortArgs body", c.pos(fd))
 }
